@@ -1229,7 +1229,9 @@ def c05(report, rng, tier, findings):
             case['decl_order'] = order          # declaration order decides the cache key order
         cases.append(case)
     judge = QueryJudge(report, findings, 'C05', nontrivial=lambda c, r: True)
-    run_query_cases(report, cases, {'caching': (False, True), 'evals': 2}, judge)
+    # a third of the join cases are evaluated after an evaluation of the same query abandoned after 1-3 rows: the caches
+    # an abandoned evaluation leaves behind must not change what the cached configuration returns
+    run_query_cases(report, cases, {'caching': (False, True), 'evals': 2, 'abandon': 0.35}, judge)
     hits_joins = report.dist.get('cache_hits_on', 0)
     # the other shapes reuse the streams of their own properties (smaller), same judge logic
     sub = lambda k: (k // 4 if tier == 'quick' else k // 4)     # noqa: E731
